@@ -25,6 +25,18 @@ func newHalf() *half { h := &half{}; h.cond = sync.NewCond(&h.mu); return h }
 type pipeEnd struct {
 	r, w *half
 	once sync.Once
+	cmu  sync.Mutex
+	cch  chan struct{} // closed by Close
+}
+
+// closedCh is closed when Close has been called on this end.
+func (p *pipeEnd) closedCh() <-chan struct{} {
+	p.cmu.Lock()
+	defer p.cmu.Unlock()
+	if p.cch == nil {
+		p.cch = make(chan struct{})
+	}
+	return p.cch
 }
 
 // BufPipe returns the two ends of an in-memory full-duplex connection.
@@ -72,6 +84,12 @@ func (p *pipeEnd) Write(b []byte) (int, error) {
 
 func (p *pipeEnd) Close() error {
 	p.once.Do(func() {
+		p.cmu.Lock()
+		if p.cch == nil {
+			p.cch = make(chan struct{})
+		}
+		close(p.cch)
+		p.cmu.Unlock()
 		p.w.mu.Lock()
 		p.w.closed = true
 		p.w.cond.Broadcast()
